@@ -107,6 +107,125 @@ class Universe:
         return None
 
 
+class CallTok:
+    """callable cached value (e.g. a vector-Jacobian-product closure): dropped by pickling, kept by copy()"""
+
+    def __init__(self, name, args):
+        self.key = (name,) + tuple(args)
+
+    def _pv_call(self, ex, *a):
+        return ("applied", self.key)
+
+    def __eq__(self, o):
+        return isinstance(o, CallTok) and o.key == self.key
+
+    def __hash__(self):
+        return hash(self.key)
+
+    def __repr__(self):
+        return f"<callable {self.key}>"
+
+
+def aux_chain_universe(run, it, prop):
+    """second abstract universe: a three-level auxiliary-output chain e -> (d, f) with mixed return conventions and a
+    callable-valued method v (like mtp/hess/grad/value and vjp closures in systems.py)."""
+    P = "states."
+    keys = ["f", "d", "e", "v"]
+    cfgs = list(itertools.product((ABSENT, NONE, VALID), repeat=4))
+
+    def harness(ctx):
+        chunk = ctx.choose(8, "chunk")
+        mod = it.module(ST)
+        ex = Exec(it, ctx, mod, mod.env, "harness")
+        cs = mod.resolve("ChainState", ctx)
+        cis, cisa, kf = mod.resolve("cache_in_state", ctx), mod.resolve("cache_in_state_with_aux", ctx), mod.resolve("_cache_key_func", ctx)
+        sysA = Obj(Cls("SysA", [it.builtins["object"]], {}, module="harness"), {})
+        calls = []
+        conv = {}
+
+        def val(name, state):
+            p = state.attrs["_variables"]["pos"]
+            return CallTok("v", [p]) if name == "v" else [name, p]
+
+        def mk(name, aux):
+            def fn(ex_, self_, state):
+                calls.append(name)
+                primary = val(name, state)
+                k = conv.get(name, len(aux))  # how many auxiliary outputs this user function returns this time
+                if not aux or k == 0:
+                    return primary if not aux else (primary,) if conv.get(name + "_wrap") else primary
+                return (primary,) + tuple(val(a, state) for a in aux[:k])
+            return Native(fn, name)
+        W = {"f": ex.call(ex.call(cis, ["pos"], {}), [mk("f", [])], {}),
+             "d": ex.call(ex.call(cisa, ["pos", "f"], {}), [mk("d", ["f"])], {}),
+             "e": ex.call(ex.call(cisa, ["pos", ("d", "f")], {}), [mk("e", ["d", "f"])], {}),
+             "v": ex.call(ex.call(cis, ["pos"], {}), [mk("v", [])], {})}
+        K = {n: ex.call(kf, [sysA, n], {}) for n in keys}
+        tok = [0]
+        for ci, cfg in enumerate(cfgs):
+            if ci % 8 != chunk:
+                continue
+            for n_d, n_e in ((0, 0), (1, 2), (0, 2), (1, 0), (1, 1)):
+                conv["d"], conv["e"] = n_d, n_e
+                for op in ("e then d then f", "d then f", "copy then v", "e then copy then f", "pickle then all"):
+                    tok[0] += 1
+                    deps = {"pos": {K[n] for n, c in zip(keys, cfg) if c != ABSENT}, "mom": set(), "dir": set()}
+                    st = ex.call(cs, [], dict(_dependencies=deps, _cache={}, _call_counts=None, pos=("pos", tok[0]), mom=("mom", tok[0]), dir=1))
+                    for n, c in zip(keys, cfg):
+                        if c == NONE:
+                            st.attrs["_cache"][K[n]] = None
+                        elif c == VALID:
+                            st.attrs["_cache"][K[n]] = val(n, st)
+                    state_of = dict(zip(keys, cfg))
+                    desc = f"cache={ {n: c for n, c in state_of.items() if c != ABSENT} } conventions: d returns {n_d} aux, e returns {n_e} aux; ops: {op}"
+                    calls.clear()
+                    try:
+                        tgt = st
+                        seq = []
+                        if op == "copy then v":
+                            tgt = ex.call(ex.getattr(st, "copy"), [], {})
+                            seq = ["v"]
+                        elif op == "e then copy then f":
+                            ex.call(W["e"], [sysA, st], {})
+                            if state_of["e"] != VALID:
+                                for a in ["d", "f"][:n_e]:
+                                    state_of[a] = VALID
+                                state_of["e"] = VALID
+                            calls.clear()
+                            tgt = ex.call(ex.getattr(st, "copy"), [], {})
+                            seq = ["f", "e"]
+                        elif op == "pickle then all":
+                            import copy as _copy
+                            tgt = Obj(cs, {})
+                            ex.call(ex.getattr(tgt, "__setstate__"), [_copy.deepcopy(ex.call(ex.getattr(st, "__getstate__"), [], {}))], {})
+                            seq = ["e", "d", "f", "v"]
+                            state_of = {n: (c if not (n == "v" and c == VALID) else ABSENT) for n, c in state_of.items()}  # callables are not pickled
+                        else:
+                            seq = op.split(" then ")
+                        for name in seq:
+                            before = len(calls)
+                            got = ex.call(W[name], [sysA, tgt], {})
+                            ok = got == val(name, tgt)
+                            ctx.run.ob(P + "aux-chain/returns-from-scratch-value", core.DISCHARGED if ok else core.FAILED, "pyvc-enum", detail="" if ok else f"{name} -> {got}; {desc}",
+                                       text="transparency over a 3-level auxiliary-output chain with mixed return conventions and callable values")
+                            if prop == "C18":
+                                cost = len(calls) - before
+                                want = 0 if state_of[name] == VALID else 1
+                                okc = cost == want
+                                ctx.run.ob(P + "aux-chain/cost-contract", core.DISCHARGED if okc else core.FAILED, "pyvc-enum",
+                                           detail="" if okc else f"{name} cost {cost} user-function evaluations, contract {want}; {desc}",
+                                           text="valid entry (incl. entries populated as auxiliary outputs, carried by copy(), or callable) => zero evaluations; miss => one")
+                            if state_of[name] != VALID:
+                                state_of[name] = VALID
+                                aux = {"d": ["f"], "e": ["d", "f"]}.get(name, [])
+                                for a in aux[:conv.get(name, 0)]:
+                                    state_of[a] = VALID
+                    except PyRaise as pr:
+                        ctx.run.ob(P + "aux-chain/no-exception", core.FAILED, "pyvc-enum", detail=f"{exc_name(pr.exc)} {pr.exc.attrs.get('args')}; {desc}")
+    it.explore(harness, "aux-chain", roots=[[i] for i in range(8)])
+    run.notes.append(f"aux-chain universe: {len(cfgs)} cache configurations x 5 return-convention pairs x 5 operation sequences")
+
+
 def configs():
     keys = [("f", "A"), ("g", "A"), ("d", "A"), ("f", "B")]
     out = []
@@ -343,5 +462,6 @@ def run(run_, tier):
     run_.trust("static read-set analysis follows self.<m>(state) and super().<m>(state) calls; reads through other aliases of the state are not tracked")
     run_.replay_for("", lambda w: {"script": "c09_cache.py", "args": [json.dumps(w or {})]})
     protocol(run_, it, "C09")
+    aux_chain_universe(run_, it, "C09")
     static_layers(run_, "C09")
     run_.extraction_drops.extend(sorted(it.dropped))
